@@ -68,7 +68,7 @@ fn set_param(req: &mut Req, f: impl FnOnce(&mut Vec<(String, Option<String>)>)) 
 fn mutate(c: &mut Case<'_>, req: &mut Req, signed: &[String]) -> Option<String> {
     let kinds = [
         "param-value", "param-name-case", "param-removed", "param-duplicated", "param-added", "method", "path-byte", "signed-header-value", "signature-digit", "expires-value", "date-value", "credential-key", "credential-scope-date",
-        "signed-headers-list", "algorithm", "plain-param-value",
+        "signed-headers-list", "algorithm", "plain-param-value", "signature-length", "amz-param-added", "unsigned-header-added",
     ];
     let kind = *c.t.pick(&kinds);
     let names = ["X-Amz-Algorithm", "X-Amz-Credential", "X-Amz-Date", "X-Amz-Expires", "X-Amz-SignedHeaders", "X-Amz-Signature"];
@@ -107,6 +107,52 @@ fn mutate(c: &mut Case<'_>, req: &mut Req, signed: &[String]) -> Option<String> 
                     p.push((k, v2));
                 }
             });
+        }
+        "signature-length" => {
+            let cut = c.t.below(64);
+            let extend = c.t.chance(64);
+            set_param(req, |p| {
+                for (k, v) in p.iter_mut() {
+                    if k == "X-Amz-Signature" {
+                        let mut s = v.clone().unwrap_or_default();
+                        if extend {
+                            s.push('0');
+                        } else {
+                            s.truncate(cut);
+                        }
+                        *v = Some(s);
+                    }
+                }
+            });
+        }
+        "amz-param-added" => {
+            // a parameter the signer did not sign, with a name from the X-Amz-* family or an S3 one
+            let n = *c.t.pick(&["X-Amz-Security-Token", "X-Amz-Content-Sha256", "X-Amz-Verif", "x-id", "versionId", "response-content-type", "X-Amz-Meta-A"]);
+            let mut present = false;
+            set_param(req, |p| {
+                present = p.iter().any(|(k, _)| k == n);
+                if !present {
+                    p.push((n.to_owned(), Some("verif".into())));
+                }
+            });
+            if present {
+                return None;
+            }
+        }
+        "unsigned-header-added" => {
+            // headers outside X-Amz-SignedHeaders decide nothing: neither the signature nor the window
+            let n = *c.t.pick(&["x-amz-date", "date", "x-amz-expires", "x-amz-security-token", "x-verif-unsigned", "x-amz-content-sha256"]);
+            if signed.iter().any(|s| s == n) || req.headers.iter().any(|(h, _)| h == n) {
+                return None;
+            }
+            let v = match n {
+                "x-amz-date" => now_date16(match c.t.below(4) { 0 => 0, 1 => -(3 * 86_400), 2 => 3 * 86_400, _ => -(c.t.below(100_000) as i64) }),
+                "date" => (*c.t.pick(&["Tue, 27 Mar 2007 19:36:42 +0000", "Sat, 26 Sep 2026 00:00:00 GMT"])).to_owned(),
+                "x-amz-expires" => (*c.t.pick(&["1", "604800"])).to_owned(),
+                "x-amz-content-sha256" => "UNSIGNED-PAYLOAD".to_owned(),
+                _ => "verif".to_owned(),
+            };
+            req.headers.push((n.to_owned(), v));
         }
         "param-added" => set_param(req, |p| p.push((format!("qadded{}", c.t.below(10)), Some("1".into())))),
         "plain-param-value" => {
@@ -293,6 +339,15 @@ fn reference_case(c: &mut Case<'_>) -> CaseResult {
     let mut req = base.req.clone();
     req.headers.retain(|(n, _)| n != "content-length");
     let signed_extra: Vec<String> = base.signed_extra.clone();
+    if c.t.chance(40) {
+        // temporary credentials: the session token travels as a signed query parameter
+        let tok = "X-Amz-Security-Token=IQoJb3JpZ2luX2VjEJr%2F%2F%2FwEaCXVzLWVhc3QtMSJHMEUCIQD%2Bverif%3D";
+        req.query = Some(match req.query.take() {
+            Some(q) => format!("{q}&{tok}"),
+            None => tok.to_owned(),
+        });
+        c.label("session-token");
+    }
     signer.presign(&mut req, &expires.to_string(), &signed_extra);
     let mut signed = signed_extra.clone();
     signed.push("host".into());
